@@ -141,10 +141,17 @@ def cli_case(ctx, rng, k):
     base = rng.choice([33, 64])
     recs = []
     binned = rng.random() < 0.3
+    below_base = base == 64 and rng.random() < 0.4
+    zero_cap = rng.random() < (0.6 if below_base else 0.15)
     pool = {}
     for i in range(rng.randint(1, 30)):
         n = rng.randint(0, 40) if not binned else rng.choice([8, 12, 12, 20])
         q = [max(0, min(x, 126 - base)) for x in gen_q(rng, n, [10, 20])]
+        if below_base and n:
+            # characters below the quality base: negative qualities, which the trimming sees as they are and only
+            # --zero-cap (the last modification) turns into zeros
+            for j in rng.sample(range(n), rng.randint(1, max(1, n // 3))):
+                q[j] = -rng.randint(1, 31)
         if binned:
             # instruments with binned qualities: many reads carry the very same quality string
             q = pool.setdefault((n, rng.randint(0, 1)), q)
@@ -156,7 +163,11 @@ def cli_case(ctx, rng, k):
     os.makedirs(d, exist_ok=True)
     with open(f"{d}/in.fq", "w") as f:
         f.write(fastx.format_fastq(recs))
-    argv = ["--json", "rep.json", "--quality-base", str(base)]
+    argv = ["--json", "rep.json", "--quality-base", str(base)] + (["-z"] if zero_cap else [])
+    if below_base:
+        ctx.count("cli_runs_with_characters_below_the_quality_base")
+    if zero_cap:
+        ctx.count("cli_runs_with_zero_cap")
     minimal = rng.random() < 0.35
     if minimal:
         argv += ["--report", "minimal"]
@@ -206,7 +217,10 @@ def cli_case(ctx, rng, k):
             else:
                 start, stop = R.qtrim(q, a, b)
             total[side] += len(s) - (stop - start)
-            if (os_, oq) != (s[start:stop], qs[start:stop]):
+            want_q = qs[start:stop]
+            if zero_cap:
+                want_q = "".join(c if ord(c) >= base else chr(base) for c in want_q)
+            if (os_, oq) != (s[start:stop], want_q):
                 ctx.violation("cli-record", f"read {name}: got {os_!r}/{oq!r}, reference slice [{start}:{stop}] of {s!r}/{qs!r} argv={argv}", case)
             if stop - start != len(s):
                 nontrivial = True
